@@ -450,6 +450,7 @@ class Registry:
         self._mixins = {}
         self._slice_models = {}
         self._attr_models = {}
+        self._await_models = {}
         self.isinstance_model = None
         self.hasattr_model = None
         self._compare_models = []
